@@ -71,6 +71,8 @@ fn gamma(a: Decimal) -> Decimal {
 
 pub fn eval(expr: Node) -> Result<Decimal, Box<dyn error::Error>> {
     use self::Node::*;
+    #[cfg(feature = "verif_hooks")]
+    crate::verif_hooks::tick(crate::verif_hooks::Site::EvalEnter);
     match expr {
         Number(i) => Ok(i),
         Add(expr1, expr2) => Ok(eval(*expr1)? + eval(*expr2)?),
@@ -99,6 +101,8 @@ pub fn eval(expr: Node) -> Result<Decimal, Box<dyn error::Error>> {
                 } else {
                     let mut factorial_result = Decimal::new(1, 0);
                     for i in 2..=sub_result.to_i64().unwrap() {
+                        #[cfg(feature = "verif_hooks")]
+                        crate::verif_hooks::tick(crate::verif_hooks::Site::EvalLoop);
                         factorial_result *= Decimal::new(i, 0);
                     }
                     Ok(factorial_result)
@@ -120,6 +124,8 @@ pub fn eval(expr: Node) -> Result<Decimal, Box<dyn error::Error>> {
                 .unwrap_or(4);
             let mut w = Decimal::ZERO;
             for _ in 0..iterations {
+                #[cfg(feature = "verif_hooks")]
+                crate::verif_hooks::tick(crate::verif_hooks::Site::EvalLoop);
                 let exp_w = w.exp();
                 w -= (w * exp_w - sub_expr)
                     / (exp_w * (w + Decimal::new(1, 0))
@@ -133,6 +139,8 @@ pub fn eval(expr: Node) -> Result<Decimal, Box<dyn error::Error>> {
             let b = eval(*expr2)?;
             let mut x = Decimal::ZERO;
             while n > Decimal::new(1, 0) {
+                #[cfg(feature = "verif_hooks")]
+                crate::verif_hooks::tick(crate::verif_hooks::Site::EvalLoop);
                 x += Decimal::new(1, 0);
                 n = (n.log10() / b.log10()).floor();
             }
@@ -147,6 +155,8 @@ pub fn eval(expr: Node) -> Result<Decimal, Box<dyn error::Error>> {
             if args.len() > 1 {
                 let mut result = Decimal::MAX;
                 for arg in <Vec<Node> as Clone>::clone(&args).into_iter() {
+                    #[cfg(feature = "verif_hooks")]
+                    crate::verif_hooks::tick(crate::verif_hooks::Site::EvalLoop);
                     result = eval(arg).unwrap().min(result);
                 }
                 Ok(result)
@@ -161,6 +171,8 @@ pub fn eval(expr: Node) -> Result<Decimal, Box<dyn error::Error>> {
             if args.len() > 1 {
                 let mut result = Decimal::MIN;
                 for arg in <Vec<Node> as Clone>::clone(&args).into_iter() {
+                    #[cfg(feature = "verif_hooks")]
+                    crate::verif_hooks::tick(crate::verif_hooks::Site::EvalLoop);
                     result = eval(arg).unwrap().max(result);
                 }
                 Ok(result)
@@ -174,6 +186,8 @@ pub fn eval(expr: Node) -> Result<Decimal, Box<dyn error::Error>> {
         Avg(args) => {
             let mut result = Decimal::ZERO;
             for arg in <Vec<Node> as Clone>::clone(&args).into_iter() {
+                #[cfg(feature = "verif_hooks")]
+                crate::verif_hooks::tick(crate::verif_hooks::Site::EvalLoop);
                 result += eval(arg).unwrap();
             }
             Ok(result / Decimal::new(args.len() as i64, 0))
@@ -181,6 +195,8 @@ pub fn eval(expr: Node) -> Result<Decimal, Box<dyn error::Error>> {
         Med(args) => {
             let mut results = vec![];
             for arg in <Vec<Node> as Clone>::clone(&args).into_iter() {
+                #[cfg(feature = "verif_hooks")]
+                crate::verif_hooks::tick(crate::verif_hooks::Site::EvalLoop);
                 results.push(eval(arg).unwrap());
             }
             results.sort_by(|a, b| a.partial_cmp(b).unwrap());
